@@ -177,6 +177,7 @@ class Index:
         self.yieldfroms = canon.desugar_yield_from(self)
         self.enumerates = canon.desugar_enumerate_idioms(self)
         self.replicated = canon.desugar_replicated_unpack(self)
+        self.memos = canon.inline_local_memos(self)
         self.counters = canon.desugar_counters(self)
         self.fused = canon.fuse_record_lists(self)
         self.positional = canon.positional_calls(self)
